@@ -193,6 +193,39 @@ def broadcast_monitor(ck, k, dn, pairs, shapes, item_every, g):
             flat = raw(f(flat_in))
             r, _ = close(raw(out).reshape((n,) + trail), flat, u)
             ck.ratio("broadcast", regime, r, 1.0, entry, "batched_result_differs_from_itemwise", wit)
+            # a batch mixing regimes: one item is the identity / zero, one is tiny, the rest generic.  Every item of the shaped batch
+            # must equal the same item evaluated alone (a series / closed-form switch, threshold or mask decided for a whole
+            # batch or batch row shows here)
+            if n < 2 or n > 64:
+                continue
+            mixed = raw(arg).reshape(n, -1).clone()
+            is_group = isinstance(arg, pp.LieTensor) and arg.ltype in (lie.LT[k],)
+            if is_group:
+                ident = raw(pp.identity_like(rewrap(mixed[:1].clone(), arg)))[0]
+                mixed[(si * 7 + 1) % n] = ident
+                if n >= 3:
+                    tiny = rewrap(torch.full((L.ALG[a],), 1e-6, dtype=torch.float64).to(dtype), x).Exp()
+                    mixed[(si * 7 + 2) % n] = raw(tiny)
+            else:
+                mixed[(si * 7 + 1) % n] = 0
+                if n >= 3:
+                    mixed[(si * 7 + 2) % n] = mixed[(si * 7 + 2) % n] * 1e-6
+            marg = rewrap(mixed.reshape(raw(arg).shape).clone(), arg)
+            regm = regime + "/mixed-regimes"
+            witm = dict(wit, mixed="identity-or-zero item, tiny item, generic items", items=n)
+            okc, outm = ck.call("broadcast.mixed", regm, entry, f, marg, witness=witm)
+            ck.count("broadcast.mixed", regm, key=(k, dn, name, s, "mixed"))
+            if not okc:
+                continue
+            outm = raw(outm).reshape((n,) + trail)
+            worst = 0.0
+            for i in range(n):
+                oki, oi = ck.call("broadcast.mixed", regm, entry, f, rewrap(mixed[i].clone(), arg), witness=dict(witm, item=i))
+                if oki:
+                    ri, _ = close(outm[i], raw(oi), u)
+                    worst = max(worst, ri)
+            ck.ratio("broadcast.mixed", regm, worst, 1.0, entry, "item_of_a_mixed_batch_differs_from_the_item_evaluated_alone", witm)
+            ck.mark("broadcast/mixed-regimes")
 
 
 # =====================================================================================
@@ -455,4 +488,6 @@ def run(ck):
     if ck.shard >= 2 % ck.nshards or ck.nshards < 3:
         from .c06_faults import fault_monitor
         fault_monitor(ck, thorough)
+    ck.require("broadcast/mixed-regimes")
     ck.floor("broadcast", 200)
+    ck.floor("broadcast.mixed", 40)
